@@ -217,10 +217,23 @@ class Instant:
     def __repr__(self):
         return str(self)
 
-def instant_lt(I1, I2): return I1.dt < I2.dt
-def instant_leq(I1, I2): return I1.dt <= I2.dt
-def instant_gt(I1, I2): return I1.dt > I2.dt
-def instant_geq(I1, I2): return I1.dt >= I2.dt
+def check_same_awareness(I1, I2):
+    # datetime refuses to order or subtract an offset-aware and a naive value.
+    if (I1.dt.utcoffset() is None) != (I2.dt.utcoffset() is None):
+        raise KaRuntimeError("Can't combine an instant that has a UTC offset with one that doesn't.")
+
+def instant_lt(I1, I2):
+    check_same_awareness(I1, I2)
+    return I1.dt < I2.dt
+def instant_leq(I1, I2):
+    check_same_awareness(I1, I2)
+    return I1.dt <= I2.dt
+def instant_gt(I1, I2):
+    check_same_awareness(I1, I2)
+    return I1.dt > I2.dt
+def instant_geq(I1, I2):
+    check_same_awareness(I1, I2)
+    return I1.dt >= I2.dt
 
 JUST_YEAR = re.compile(r"\d{4}$")
 JUST_YEAR_AND_MONTH = re.compile(r"\d{4}-\d{2}$")
@@ -258,6 +271,7 @@ def ceil_instant(inst):
     return Instant(floor_instant(inst).dt + timedelta(days=1))
 
 def instant_minus_instant(i1, i2):
+    check_same_awareness(i1, i2)
     return Quantity((i1.dt-i2.dt).total_seconds(), SECONDS)
 
 def instant_plus_quantity(inst, q):
